@@ -1,3 +1,115 @@
-(* C04 -- stub, theorems follow *)
-From Coq Require Import QArith ZArith List.
-From FL Require Import Tradeoff Hull Interp ThreshOpt.
+(* C04 -- ThresholdOptimizer equalises the constrained metric exactly on the training data.
+   Only statements, `exact`, and Print Assumptions.  Gen_metricdict / Gen_hull are regenerated from
+   /repo on every run; the first four theorems tie the model's metric table, derived confusion-matrix
+   fields, hull drop test and interpolation formulas to them. *)
+From Coq Require Import QArith ZArith List Bool.
+From FL Require Import Num Tradeoff Tradeoff_proofs Hull Hull_proofs Interp Interp_proofs ThreshOpt ThreshOpt_proofs.
+From FLGen Require Gen_metricdict Gen_hull.
+Import ListNotations.
+Open Scope Q_scope.
+
+(* ---- source ties ---- *)
+Theorem C04_metric_table_is_source : forall m c, Gen_metricdict.metric_eval m c = metric_eval m c.
+Proof. intros m c; destruct m; reflexivity. Qed.
+Print Assumptions C04_metric_table_is_source.
+
+Theorem C04_drop_test_is_source : forall r0 r1 r2,
+  drop_test r0 r1 r2 = Gen_hull.drop_test_xy (px r0) (py r0) (px r1) (py r1) (px r2) (py r2).
+Proof. intros; reflexivity. Qed.
+Print Assumptions C04_drop_test_is_source.
+
+Theorem C04_interp_formulas_are_source : forall h i x,
+  let r := interp_at h i x in
+  let a := nth i h dpt in let b := nth (S i) h dpt in
+  ip0 r = Gen_hull.interp_p0 (px a) (px b) x /\ ip1 r = Gen_hull.interp_p1 (ip0 r) /\
+  iy r = Gen_hull.interp_y (ip0 r) (ip1 r) (py a) (py b) /\ iop0 r = pop a /\ iop1 r = pop b.
+Proof. intros; repeat split; reflexivity. Qed.
+Print Assumptions C04_interp_formulas_are_source.
+
+(* ---- interp_index_valid ---- *)
+(* every row k <= N of a hull's interpolated curve mixes two ADJACENT hull vertices i, i+1 with x_i < x_{i+1},
+   weights p0 in [0,1], p0 + p1 = 1, reproducing the grid value k/N exactly (non-zero denominator) *)
+Theorem C04_interp_index_valid : forall h N k d, chain_ok (map px h) -> (k <= Pos.to_nat N)%nat ->
+  let r := nth k (interpolate h (grid N)) d in
+  (exists i, (S i < length h)%nat /\ iop0 r = pop (nth i h dpt) /\ iop1 r = pop (nth (S i) h dpt) /\
+     0 <= ip0 r /\ ip0 r <= 1 /\ ip0 r + ip1 r == 1 /\
+     ip0 r * px (nth i h dpt) + ip1 r * px (nth (S i) h dpt) == ix r /\
+     iy r == ip0 r * py (nth i h dpt) + ip1 r * py (nth (S i) h dpt) /\
+     px (nth i h dpt) < px (nth (S i) h dpt)) /\ ix r = grid_pt N k.
+Proof. exact interpolate_row_ok. Qed.
+Print Assumptions C04_interp_index_valid.
+
+(* the index rule itself: x_i < x <= x_{i+1} for x > 0, and x_i = 0 < x_{i+1} for the first grid point *)
+Theorem C04_interp_index_bracket : forall xs x, chain_ok xs ->
+  (x == 0 -> bracket xs (idx_raw xs x) x) /\
+  (0 < x -> x <= 1 -> bracket xs (idx_adj xs x) x /\ nth (idx_adj xs x) xs 0 < x).
+Proof. intros xs x Hc. split; [apply idx_raw_valid; exact Hc | apply idx_adj_valid; exact Hc]. Qed.
+Print Assumptions C04_interp_index_bracket.
+
+(* ---- op_counts_sound ---- *)
+Theorem C04_op_counts_sound : forall g t c0 c1, In (t, c0, c1) (thresholds_counts g) ->
+  cm_eq (exp_cm (op_rule (mkop OpGt t)) g) (actual_cm (count_label false g) (count_label true g) c0 c1) /\
+  cm_eq (exp_cm (op_rule (mkop OpLt t)) g) (flipped_cm (count_label false g) (count_label true g) c0 c1) /\
+  (0 <= c0 <= count_label false g)%Z /\ (0 <= c1 <= count_label true g)%Z.
+Proof. exact op_counts_sound. Qed.
+Print Assumptions C04_op_counts_sound.
+
+(* ---- hull_sublist_ends ---- *)
+Theorem C04_hull_sublist_ends : forall flip mx my g, constraint_metric mx -> both_labels g = true ->
+  (forall r, In r (group_hull flip mx my g) -> In r (tradeoff_points flip mx my g)) /\
+  chain_ok (map px (group_hull flip mx my g)).
+Proof.
+  intros flip mx my g Hm Hb. split; [intros r; apply hull_incl | apply group_hull_chain_ok; assumption].
+Qed.
+Print Assumptions C04_hull_sublist_ends.
+
+Theorem C04_hull_keeps_ends : forall p ps d,
+  exists mid, hull (p :: ps) = p :: mid /\ last (hull (p :: ps)) d = last (p :: ps) d.
+Proof. exact hull_ends. Qed.
+Print Assumptions C04_hull_keeps_ends.
+
+(* ---- metric_linear ---- *)
+Theorem C04_metric_linear : forall m p0 p1 f h g, both_labels g = true -> p0 + p1 == 1 ->
+  metric_eval m (exp_cm (fun s => p0 * f s + p1 * h s) g) ==
+  p0 * metric_eval m (exp_cm f g) + p1 * metric_eval m (exp_cm h g).
+Proof. exact metric_linear. Qed.
+Print Assumptions C04_metric_linear.
+
+(* ---- the property: simple constraints ---- *)
+Theorem C04_simple_parity : forall flip mx my N gs, constraint_metric mx ->
+  (forall g, In g gs -> both_labels g = true) ->
+  let f := fit_simple flip mx my N gs in
+  (fs_best f <= Pos.to_nat N)%nat /\
+  Forall2 (fun g r => metric_eval mx (exp_cm (pmf r) g) == grid_pt N (fs_best f)) gs (simple_rules f).
+Proof. exact simple_parity. Qed.
+Print Assumptions C04_simple_parity.
+
+(* ---- the property: equalized odds ---- *)
+Theorem C04_eo_parity_fpr : forall flip obj N gs, (forall g, In g gs -> both_labels g = true) ->
+  let f := fit_eo flip obj N gs in
+  fe_xbest f = grid_pt N (fe_best f) /\
+  Forall2 (fun g r => metric_eval FPR (exp_cm (pmf r) g) == fe_xbest f) gs (fe_rules f).
+Proof. exact eo_parity_fpr. Qed.
+Print Assumptions C04_eo_parity_fpr.
+
+(* TPR half; uses hull_is_upper_hull (Hull_proofs) for the p_ignore = 0 branch, where a group's interpolated
+   ROC point lies exactly on the diagonal and the common minimum must be on the diagonal too *)
+Theorem C04_eo_parity_tpr : forall flip obj N gs, (forall g, In g gs -> both_labels g = true) ->
+  let f := fit_eo flip obj N gs in
+  Forall2 (fun g r => metric_eval TPR (exp_cm (pmf r) g) == fe_ybest f) gs (fe_rules f).
+Proof. exact eo_parity_tpr. Qed.
+Print Assumptions C04_eo_parity_tpr.
+
+(* non-vacuity: two groups with both labels, tied scores, flip, grid size 4; the premises hold and the
+   fitted rule is a genuine mixture *)
+Example C04_example :
+  let gs := [[(1, false); (2, true); (1, true)]; [(0, false); (2, true); (2, false); (0, true)]]%Z in
+  (forall g, In g gs -> both_labels g = true) /\
+  (forall g, In g gs -> is_upper_hull (group_hull true FPR TPR g) (tradeoff_points true FPR TPR g) = true) /\
+  map (fun r => Qred (r_p0 r)) (simple_rules (fit_simple true SelRate Acc 4 gs)) = [3 # 4; 1 # 2].
+Proof.
+  cbv zeta. split; [|split].
+  - intros g [<-|[<-|[]]]; reflexivity.
+  - intros g [<-|[<-|[]]]; vm_compute; reflexivity.
+  - vm_compute. reflexivity.
+Qed.
